@@ -179,15 +179,37 @@ _SYNC_ON_PENDING_SIBLING = {
     "params": {"kinds": {}},
     "variants": [{"options": {"ENABLE_COMPLEX_ASSERTIONS": False}}, {"options": {"ENABLE_COMPLEX_ASSERTIONS": False, "KEEP_DEPENDENCIES": True}}],
 }
+# several context faults within ONE _pause_contexts / _resume_contexts: a task suspended on a batch item while it holds
+# two contexts whose pause() both raise at that suspension (the LAST one raised - the outermost context's - is the task's
+# error, as for nested __exit__ calls); resp. whose resume() both raise at the same reactivation (the FIRST one raised -
+# the outermost context's again - is the task's error). Which error wins must not depend on any option
+# (DUMP_EXCEPTIONS reports the errors that are not re-raised).
+def _fault_stack(kind, n=2):
+    body = [{"op": "yield", "x": "a1", "s": {"new": {"item": [0, 1, {"set": 7}]}}}]
+    for i in range(n, 0, -1):
+        body = [{"op": "with", "c": {"async": [i, {kind: [1, 10 + i]}]}, "body": body}]
+    return {
+        "roots": [[
+            {"op": "try", "body": [{"op": "yield", "x": "x1", "s": {"new": {"task": body + [{"op": "return", "e": {"var": "a1"}}]}}},
+                                   {"op": "return", "e": {"var": "x1"}}],
+             "x": "e1", "handler": [{"op": "return", "e": {"var": "e1"}}]}]],
+        "params": {"kinds": {}},
+        "variants": [{"options": {"DUMP_EXCEPTIONS": True}}, {"options": {"DUMP_CONTEXTS": True, "DUMP_PRE_ERROR_STATE": True}},
+                     {"options": {o: True for o in OPTS}, "clock": [1]}],
+    }
+
+
+_FAULT_STACKS = [_fault_stack("pause"), _fault_stack("resume"), _fault_stack("pause", 3)]
+_EXTRA2 = [(1, dict(_base, name="ctx-fault-stacks", p_ctx_stack=0.3, p_ctx_fault=0.5, p_with=0.25, p_item=0.55))]
 _EXTRA = [
     (1, dict(_base, name="sync-shared", p_sync=0.3, p_old=0.5, p_let=0.3, p_item=0.5)),
     (1, dict(_base, name="skip-noassert", p_item_skip=0.45, p_item=0.6)),
     (1, dict(_base, name="ctx-faults", p_ctx_fault=0.7, p_with=0.45, p_item=0.55, p_nonasync=0.1)),
 ]
-_CORPUS_SRC = [_SIBLING_FLUSH] + _KEEP_GUARD + [_NOASSERT_SKIP, _PERF_CTX_FAULT, _SYNC_ON_PENDING_SIBLING]
+_CORPUS_SRC = [_SIBLING_FLUSH] + _KEEP_GUARD + [_NOASSERT_SKIP, _PERF_CTX_FAULT, _SYNC_ON_PENDING_SIBLING] + _FAULT_STACKS
 
 mach.install(globals(), "C20", NAMES, ("C20:",), PROFILES, n_quick=200, n_thorough=2500, nontrivial=_nontrivial,
-             extra_monitors=_extra, hang_monitor=_hang, corpus=_CORPUS_SRC, level="proof", extra_gen=mach.extra_profiles(_EXTRA, 60, 900))
+             extra_monitors=_extra, hang_monitor=_hang, corpus=_CORPUS_SRC, level="proof", extra_gen=mach.extra_all(mach.extra_profiles(_EXTRA, 60, 900), mach.extra_profiles(_EXTRA2, 30, 450)))
 for _c, _src in zip(CORPUS, _CORPUS_SRC):
     _c["variants"] = _src["variants"]
     _c["tree"]["variants"] = _c["variants"]
@@ -206,6 +228,8 @@ def gen_cases(rng, tier):
             c["variants"][0] = {"options": {"ENABLE_COMPLEX_ASSERTIONS": False}}
         elif prof == "ctx-faults":
             c["variants"][0] = {"options": {"COLLECT_PERF_STATS": True}, "clock": [1]}
+        elif prof == "ctx-fault-stacks":
+            c["variants"][0] = {"options": {"DUMP_EXCEPTIONS": True}}
         mach.finish_case(c, c.get("meta"))
         c["tree"]["variants"] = c["variants"]
     return cs
